@@ -443,7 +443,14 @@ pub fn crash_case<D: Distance>(c: &CrashCase, max_kills: usize, st: &mut CaseSta
             std::fs::create_dir_all(&dir).map_err(|e| Fail::Infra(format!("{e}")))?;
             let r = drive_child(&dir, &spec_file, 0, kill, 0)?;
             if !r.parked {
-                return Err(Fail::Infra(format!("kill point {kill:?} was never reached")));
+                if r.done {
+                    // with several rayon threads the number of callbacks of a build varies slightly from run
+                    // to run: a kill point beyond this run's count is simply not reached
+                    st.bump("kill_point_not_reached");
+                    let _ = std::fs::remove_dir_all(&dir);
+                    continue;
+                }
+                return Err(Fail::Infra(format!("child ended without reaching {kill:?} and without finishing")));
             }
             let mut admissible = vec![r.last_ack];
             if let Some(cv) = r.committing {
